@@ -53,7 +53,7 @@ fn transform(rng: &mut Rng, text: &str, which: usize) -> String {
             let idxs: Vec<usize> = (0..lines.len()).filter(|&i| !lines[i].trim().is_empty() && !in_front(&lines, i)).collect();
             if idxs.is_empty() { return text.to_string(); }
             let k = idxs[rng.below(idxs.len())];
-            lines.iter().enumerate().map(|(i, l)| if i == k { format!("{l}{}", rng.pick_str(&[" ", "  ", "\t"])) } else { l.to_string() }).collect::<Vec<_>>().join("\n")
+            lines.iter().enumerate().map(|(i, l)| if i == k { format!("{l}{}", rng.pick_str(&[" ", "  ", "   "])) } else { l.to_string() }).collect::<Vec<_>>().join("\n")
         }
         3 => { // block comment between two words of step text: replace one " and " / " the " style gap (space between two ASCII letters)
             let b = text.as_bytes();
@@ -94,11 +94,19 @@ fn in_special(text: &str, pos: usize) -> bool {
 pub fn run(ctx: &mut Ctx) {
     ctx.rule = "well-formed recipes (as C01, plain spelling) and, for CRLF, also soups without backslash / lone CR; 5 transformations (LF->CRLF, trailing comment, trailing spaces, block comment between two words of step text, extra blank/comment-only lines between blocks) at random insertion points; oracle: the parsed recipe is equal up to whitespace inside step text and validity is equal; original and transformed input both go through the model. non-trivial = recipe with components / several sections / diagnostics".into();
     let mut rng = Rng::new(ctx.seed ^ 0xC17);
+    // the side conditions of the CRLF theorem (C17_crlf: CR and LF are neither lexer white space nor word characters)
+    // must hold of the character table generated from the real lexer on this run
+    for (cp, name) in [(10u32, "LF"), (13u32, "CR")] {
+        let bits: u32 = ctx.model().one(&format!("classbits {cp}")).parse().unwrap_or(u32::MAX);
+        ctx.eval(name, true);
+        if bits & 1 != 0 || bits & 4 != 0 { ctx.oracle_fail(format!("character {name} (U+{cp:04X})"), format!("the real lexer treats {name} as {} : the hypothesis CrlfSpec of theorem C17_crlf is false of the current lexer, so CRLF conversion can change tokens (e.g. a word swallowing the CR of a line end)", if bits & 1 != 0 { "white space" } else { "a word character" }), "c17:crlf-spec".into()); }
+    }
     let n = if ctx.thorough { 40_000 } else { 800 };
     for i in 0..n {
         let r = wf::generate(&mut rng, i % 2 == 1);
         let (ext, conv) = if r.extended { (0xEEAu32, 1u8) } else { (0, 0) };
-        let base = wf::spell(&r, &Style::plain());
+        // names wrapped over a line break exercise line ends inside component names (not step text)
+        let base = wf::spell(&r, &Style { seed: rng.next(), spaces: false, comments: false, wrap: i % 2 == 0, crlf: false, unit_space: false });
         let Some(b) = recipe_case(ctx, &base, ext, conv) else { continue };
         for which in 0..5 {
             let t = transform(&mut rng, &base, which);
